@@ -69,6 +69,16 @@ type Case struct {
 	Slow    int       `json:"slow,omitempty"`
 	Batch   int       `json:"batch,omitempty"`
 	Loop    *Loopback `json:"loopback,omitempty"`
+	Race    *RacePass `json:"race,omitempty"`
+}
+
+// RacePass is the verdict of the statistical pass with pairs of fresh initiations of one peer in one receive batch.
+type RacePass struct {
+	Status   string `json:"status"` // ok, skipped, violation
+	Detail   string `json:"detail"`
+	Pairs    int    `json:"pairs"`
+	BothUsed int    `json:"both_consumed"` // pairs of which the device consumed BOTH initiations (two workers overlapped)
+	Replays  int    `json:"replays"`
 }
 
 // Loopback is the verdict of the pass over the real conn.StdNetBind (judged in Go).
@@ -729,6 +739,28 @@ func (r *run) exec(pl Plan, recs *[]StepRec) bool {
 	case "uapi":
 		pi := pl.Peer % len(r.peers)
 		hid := r.hidNext + 1
+		// endpoint reconfiguration classes relative to the peer's CURRENT endpoint (configured or learnt by roaming)
+		if cur, err := netip.ParseAddrPort(r.w.Dev.VerifPeer(r.peers[pi].NoisePub()).Endpoint); err == nil {
+			switch pl.Content {
+			case "sameip": // same host, another port
+				from = netip.AddrPortFrom(cur.Addr(), cur.Port()+1+uint16(mrand.Intn(3)))
+			case "sameport": // another host, same port
+				a := r.addrs[(pl.From+1)%len(r.addrs)].Addr()
+				if a == cur.Addr() {
+					a = r.addrs[(pl.From+2)%len(r.addrs)].Addr()
+				}
+				from = netip.AddrPortFrom(a, cur.Port())
+			case "same":
+				from = cur
+			case "otherfamily": // v4 -> v6 and back
+				if cur.Addr().Is4() {
+					from = netip.AddrPortFrom(netip.MustParseAddr("2001:db8::7"), cur.Port())
+				} else {
+					from = netip.AddrPortFrom(netip.MustParseAddr("192.0.2.7"), cur.Port())
+				}
+			}
+			ip, port = r.addrDesc(from)
+		}
 		t := r.now()
 		err, out := r.w.Set(fmt.Sprintf("public_key=%s\nendpoint=%s\n", hex.EncodeToString(r.peers[pi].Pub[:]), from))
 		if err != nil {
@@ -1069,6 +1101,33 @@ func genStaleKeys(r *mrand.Rand) []Plan {
 	return p
 }
 
+// UAPI endpoint= re-pointing an existing peer: same host/other port, other host/same port, identical, other
+// address family — from the configured endpoint and from one learnt by roaming; a TUN packet after each shows
+// where the next datagram goes (transport with a session, initiation without)
+func genReconfigure(r *mrand.Rand) []Plan {
+	pi := r.Intn(3)
+	var p []Plan
+	classes := []string{"sameip", "sameip", "sameport", "same", "otherfamily", ""}
+	switch r.Intn(3) {
+	case 0: // no session: the device initiates toward whatever is configured
+	case 1:
+		p = append(p, handshakeAsResponder(pi, pi)...)
+		p = append(p, batchOf(Elem{Peer: pi, From: pi, Kind: "good"}))
+	case 2: // endpoint learnt by roaming
+		p = append(p, handshakeAsResponder(pi, r.Intn(len(addrTable)))...)
+		p = append(p, batchOf(Elem{Peer: pi, From: r.Intn(len(addrTable)), Kind: "good"}))
+	}
+	n := 2 + r.Intn(4)
+	for i := 0; i < n; i++ {
+		p = append(p, Plan{Op: "uapi", Peer: pi, From: r.Intn(len(addrTable)), Content: classes[r.Intn(len(classes))]})
+		p = append(p, Plan{Op: "shifths", Peer: pi, D: 6}, Plan{Op: "tun", Peer: pi})
+		if r.Intn(3) == 0 {
+			p = append(p, batchOf(Elem{Peer: pi, From: r.Intn(len(addrTable)), Kind: []string{"good", "badtag", "replay"}[r.Intn(3)]}), Plan{Op: "tun", Peer: pi})
+		}
+	}
+	return p
+}
+
 func genMix(r *mrand.Rand) []Plan {
 	var p []Plan
 	n := 8 + r.Intn(12)
@@ -1102,7 +1161,7 @@ func genMix(r *mrand.Rand) []Plan {
 		case 7:
 			p = append(p, Plan{Op: "tun", Peer: pi})
 		case 8:
-			p = append(p, Plan{Op: "uapi", Peer: pi, From: from})
+			p = append(p, Plan{Op: "uapi", Peer: pi, From: from, Content: []string{"", "sameip", "sameport", "same", "otherfamily"}[r.Intn(5)]})
 		case 9:
 			p = append(p, Plan{Op: "cookie", Peer: pi, From: from})
 		}
@@ -1312,6 +1371,110 @@ func loopbackFamily(host string) (status, detail string, checks int, lg []string
 	return "ok", "", checks, lg
 }
 
+// ---------------------------------------------------------------- concurrent initiations of one peer
+
+// racePass: two fresh initiations of the SAME peer (timestamps t1 < t2) arrive in one receive batch, so two
+// handshake workers take them at the same moment; many peers per batch, several rounds.  Whatever the workers
+// do with each other, an initiation the device has CONSUMED (it answered it) must never be consumed again: after
+// the handshake times are shifted past the flood gap every answered initiation is replayed from another address;
+// a response to a replay, or an endpoint that follows it, is a violation.  Judged in Go.
+func racePass(rounds int) *RacePass {
+	rp := &RacePass{Status: "skipped"}
+	const npeers = 24
+	var peers []*cosim.RefPeer
+	for i := 0; i < npeers; i++ {
+		peers = append(peers, cosim.NewPeer(fmt.Sprintf("R%d", i), fmt.Sprintf("192.0.2.%d:%d", 10+i, 2000+i), fmt.Sprintf("10.2.%d.0/24", i)))
+	}
+	w, err := cosim.NewWorld(cosim.Config{Up: true, BindBatch: 128}, true, peers...)
+	if err != nil {
+		rp.Detail = err.Error()
+		return rp
+	}
+	defer w.Close()
+	w.Timeout = 5 * time.Second
+	ts := uint64(time.Now().UnixNano())
+	stranger := netip.MustParseAddrPort("203.0.113.200:999")
+	for round := 0; round < rounds; round++ {
+		type sent struct {
+			st   *ref.InitiatorState
+			peer int
+		}
+		byIdx := map[[2]uint32]*sent{} // (peer, sender index)
+		var ds []sim.Dgram
+		for i, p := range peers {
+			w.Dev.VerifShiftHandshakeTimes(p.NoisePub(), time.Second)
+			for k := 0; k < 2; k++ {
+				ts += 1000
+				p.NextIdx++
+				st := ref.CreateInitiation(p.Priv, ref.NewPrivate(), w.DevPub, p.Psk, p.NextIdx, ref.Tai64nRaw(0x400000000000000a+ts/1e9, uint32(ts%1e9)))
+				byIdx[[2]uint32{uint32(i), p.NextIdx}] = &sent{st, i}
+				ds = append(ds, sim.Dgram{From: p.Addr, Data: st.Msg})
+			}
+			rp.Pairs++
+		}
+		out := w.InjectBatch(ds...)
+		if !out.Settled {
+			rp.Detail = "a round did not settle"
+			return rp
+		}
+		// which initiations were consumed: the ones that were answered
+		var answered []*sent
+		perPeer := map[int]int{}
+		for _, s := range out.Sent {
+			d := s.Data
+			if len(d) != ref.ResponseSize || d[0] != ref.TypeResponse {
+				continue
+			}
+			recv := binary.LittleEndian.Uint32(d[8:12])
+			for i, p := range peers {
+				if ref.CheckMac1(d, p.Pub) {
+					if x := byIdx[[2]uint32{uint32(i), recv}]; x != nil {
+						answered = append(answered, x)
+						perPeer[i]++
+					}
+				}
+			}
+		}
+		for _, n := range perPeer {
+			if n == 2 {
+				rp.BothUsed++
+			}
+		}
+		// past the flood gap, replay every consumed initiation from a stranger's address
+		var rs []sim.Dgram
+		for i, p := range peers {
+			_ = i
+			w.Dev.VerifShiftHandshakeTimes(p.NoisePub(), time.Second)
+		}
+		for _, x := range answered {
+			rs = append(rs, sim.Dgram{From: stranger, Data: x.st.Msg})
+		}
+		rp.Replays += len(rs)
+		if len(rs) == 0 {
+			continue
+		}
+		out = w.InjectBatch(rs...)
+		for _, s := range out.Sent {
+			if len(s.Data) == ref.ResponseSize && s.Data[0] == ref.TypeResponse {
+				rp.Status = "violation"
+				rp.Detail = fmt.Sprintf("round %d: a replayed, already consumed initiation sent from %s was answered again (response to %s); %d pairs so far, %d with both initiations consumed",
+					round, stranger, s.To, rp.Pairs, rp.BothUsed)
+				return rp
+			}
+		}
+		for i, p := range peers {
+			if ep := w.Dev.VerifPeer(p.NoisePub()).Endpoint; ep != p.Addr.String() {
+				rp.Status = "violation"
+				rp.Detail = fmt.Sprintf("round %d: endpoint of peer %d is %s after replays from %s, want %s", round, i, ep, stranger, p.Addr)
+				return rp
+			}
+		}
+	}
+	rp.Status = "ok"
+	rp.Detail = fmt.Sprintf("%d pairs, both consumed in %d, %d replays of consumed initiations all refused", rp.Pairs, rp.BothUsed, rp.Replays)
+	return rp
+}
+
 // ---------------------------------------------------------------- output
 
 func writeShard(path string, cases []Case) error {
@@ -1335,6 +1498,7 @@ func main() {
 	replayIn := flag.String("replay", "", "JSON file with cases (plans) to run")
 	corpus := flag.String("corpus", "", "directory of corpus JSON cases to run first")
 	noLoop := flag.Bool("noloopback", false, "skip the pass over the real StdNetBind on loopback")
+	raceRounds := flag.Int("racerounds", 12, "rounds of the concurrent-initiation pass (0 = skip)")
 	flag.Parse()
 	if err := os.MkdirAll(*out, 0o755); err != nil {
 		panic(err)
@@ -1352,6 +1516,10 @@ func main() {
 		for _, c := range in {
 			if c.Loop != nil {
 				cases = append(cases, Case{Gen: "loopback-stdnetbind", Loop: loopback(), Gallina: fmt.Sprintf("mk %d [] []", baseNs)})
+				continue
+			}
+			if c.Race != nil {
+				cases = append(cases, Case{Gen: "concurrent-initiations", Race: racePass(60), Gallina: fmt.Sprintf("mk %d [] []", baseNs)})
 				continue
 			}
 			b := c.Batch
@@ -1387,13 +1555,16 @@ func main() {
 		if !*noLoop {
 			cases = append(cases, Case{Gen: "loopback-stdnetbind", Loop: loopback(), Gallina: fmt.Sprintf("mk %d [] []", baseNs)})
 		}
+		if *raceRounds > 0 {
+			cases = append(cases, Case{Gen: "concurrent-initiations", Race: racePass(*raceRounds), Gallina: fmt.Sprintf("mk %d [] []", baseNs)})
+		}
 		r := mrand.New(mrand.NewSource(*seed))
 		gens := []struct {
 			name string
 			f    func(*mrand.Rand) []Plan
 			w    int
 		}{{"roam-transport", genRoamTransport, 4}, {"roam-handshake", genRoamHandshake, 4}, {"initiator-role", genInitiatorRole, 3},
-			{"mixed-batch", genMixedBatch, 3}, {"two-sessions", genTwoSessions, 2}, {"restart", genRestart, 4}, {"crossed", genCrossed, 4}, {"stale-keys", genStaleKeys, 3}, {"mix", genMix, 4}}
+			{"mixed-batch", genMixedBatch, 3}, {"two-sessions", genTwoSessions, 2}, {"restart", genRestart, 4}, {"crossed", genCrossed, 4}, {"stale-keys", genStaleKeys, 3}, {"reconfigure", genReconfigure, 3}, {"mix", genMix, 4}}
 		tot := 0
 		for _, g := range gens {
 			tot += g.w
